@@ -7,6 +7,9 @@ func (e *executor) other(t []string) (string, bool) {
 	if r, ok := e.hmacOp(t); ok {
 		return r, true
 	}
+	if r, ok := e.agconcOp(t); ok {
+		return r, true
+	}
 	if r, ok := e.clientOp(t); ok {
 		return r, true
 	}
